@@ -49,6 +49,7 @@ type c13Script struct {
 	n, j     int
 	schedule int
 	defaults bool // the Client's interval fields are left at zero: the documented defaults (5 s / 1 s) apply
+	dress    int  // shape of the peer's answers (c13DWA)
 }
 
 func (s c13Script) String() string {
@@ -56,7 +57,32 @@ func (s c13Script) String() string {
 	if s.defaults {
 		d = " (defaults: fields left at zero)"
 	}
-	return fmt.Sprintf("MaxRetransmits=%d WatchdogInterval=%v RetransmitInterval=%v%s, peer: %s (n=%d j=%d), transport: %s", s.N, s.W, s.R, d, aNames[s.pattern], s.n, s.j, sNames[s.schedule])
+	return fmt.Sprintf("MaxRetransmits=%d WatchdogInterval=%v RetransmitInterval=%v%s, peer: %s (n=%d j=%d, answer shape %d), transport: %s", s.N, s.W, s.R, d, aNames[s.pattern], s.n, s.j, s.dress, sNames[s.schedule])
+}
+
+// c13DWA: the peer's watchdog answer in one of the shapes RFC 6733 5.5.2 allows: 0 minimal;
+// 1 with Origin-State-Id; 2 with an Error-Message and undefined AVPs; 3 identity first and
+// Result-Code last; 4 answered by another host of the same realm (a peer behind a virtual address).
+const nC13Dress = 5
+
+func c13DWA(dress int, hbh, e2e, rc uint32) []byte {
+	rcn := peer.U32(peer.ResultCode, rc)
+	id := peer.Identity("srv.example", "example")
+	avps := append([]*refcodec.Node{rcn}, id...)
+	switch dress {
+	case 1:
+		avps = append(avps, peer.U32(peer.OriginState, 0xFFFFFFFF))
+	case 2:
+		u := &refcodec.Node{Code: 0x00E00123, Flags: 0, Kind: refcodec.Unknown, B: []byte{1, 2, 3, 4, 5}}
+		v := &refcodec.Node{Code: 0x00E00124, Flags: 0x80, Vendor: 4242, Kind: refcodec.Unknown, B: []byte("vendor")}
+		avps = append(append([]*refcodec.Node{u}, avps...), peer.Str(peer.ErrorMessage, refcodec.UTF8String, "all is well"), v)
+		avps[len(avps)-2].Flags = 0
+	case 3:
+		avps = []*refcodec.Node{id[1], id[0], peer.U32(peer.OriginState, 1), rcn}
+	case 4:
+		avps = append([]*refcodec.Node{rcn}, peer.Identity("srv-b.example", "example")...)
+	}
+	return peer.Msg(0, 280, 0, hbh, e2e, avps...)
 }
 
 func runC13Client(c *ev.Case, ctx *lib.Ctx, sc c13Script) {
@@ -130,7 +156,7 @@ func runC13Client(c *ev.Case, ctx *lib.Ctx, sc c13Script) {
 					go func() {
 						time.Sleep(sc.R / 4)
 						for i := 0; i < burst; i++ {
-							mc.Feed(peer.DWA(h.HopByHop, h.EndToEnd, 2001))
+							mc.Feed(c13DWA(sc.dress, h.HopByHop, h.EndToEnd, 2001))
 						}
 					}()
 				}
@@ -141,7 +167,7 @@ func runC13Client(c *ev.Case, ctx *lib.Ctx, sc c13Script) {
 			if rc == 2001 {
 				answered[round] = true
 			}
-			dwa := peer.DWA(h.HopByHop, h.EndToEnd, rc)
+			dwa := c13DWA(sc.dress, h.HopByHop, h.EndToEnd, rc)
 			switch sc.schedule {
 			case sImmediate, sLateReturn:
 				mc.Feed(dwa)
@@ -446,6 +472,21 @@ func runC13Server(c *ev.Case, ctx *lib.Ctx, variant int) {
 		if variant&2 != 0 {
 			avps = append(avps, peer.U32(peer.OriginState, 5))
 		}
+		if variant&8 != 0 {
+			// realm first, undefined AVPs (plain and vendor-specific) around the identity
+			u := &refcodec.Node{Code: 0x00E00123, Flags: 0, Kind: refcodec.Unknown, B: []byte{1, 2, 3, 4, 5}}
+			v := &refcodec.Node{Code: 0x00E00124, Flags: 0x80, Vendor: 4242, Kind: refcodec.Unknown, B: []byte("vendor")}
+			avps[0], avps[1] = avps[1], avps[0]
+			avps = append(append([]*refcodec.Node{u}, avps...), v)
+		}
+		if variant&16 != 0 {
+			// another host of the peer's realm speaks on the connection (a peer behind a virtual address)
+			for _, a := range avps {
+				if a.Code == peer.OriginHost {
+					a.B = []byte("peer-b.example")
+				}
+			}
+		}
 		flags := uint8(0x80)
 		if variant&4 != 0 {
 			flags |= 0x40
@@ -597,7 +638,9 @@ func TestC13(t *testing.T) {
 	reps := rec.N(4, 600)
 	rec.Suite("client-scripts", len(scripts)*reps, func(c *ev.Case) {
 		sc := scripts[c.I%len(scripts)]
+		sc.dress = (c.I/len(scripts) + c.I) % nC13Dress
 		c.Class("N=%d/%s/%s/W>R=%v/defaults=%v", sc.N, aNames[sc.pattern], sNames[sc.schedule], sc.W > sc.R, sc.defaults)
+		c.Class("dwa-shape=%d/%s", sc.dress, aNames[sc.pattern])
 		leak := runBubbleWD(t, rec, c, 30*time.Second, func() { runC13Client(c, ctx, sc) })
 		if leak != "" && !c.Failed() {
 			c.Fail(ev.Sig{"op": "bubble-leak", "pattern": aNames[sc.pattern], "schedule": sNames[sc.schedule]}, nil, nil, "goroutines left blocked after the scenario: %s; %s", leak, sc.String())
@@ -621,8 +664,8 @@ func TestC13(t *testing.T) {
 		}
 	})
 	rec.Suite("server-dwr", rec.N(64, 200000), func(c *ev.Case) {
-		c.Class("server-dwr/variant=%d", c.I%8)
-		leak := runBubbleWD(t, rec, c, 60*time.Second, func() { runC13Server(c, ctx, c.I%8) })
+		c.Class("server-dwr/variant=%d", c.I%32)
+		leak := runBubbleWD(t, rec, c, 60*time.Second, func() { runC13Server(c, ctx, c.I%32) })
 		if leak != "" && !c.Failed() {
 			c.Fail(ev.Sig{"op": "bubble-leak", "role": "server"}, nil, nil, "goroutines left blocked after the scenario: %s", leak)
 		}
